@@ -188,6 +188,24 @@ func c10LiveProp(t *testing.T, k *verifkit.Kit) func(c c10Live) error {
 			}
 			return nil
 		}
+		if c.Fault == "timeouts" && c.N >= 3 {
+			// "retried ... with increasing back-off": the waits between consecutive timed-out receives never shrink, and
+			// the last is longer than the first (how long they are is the code's business)
+			var at []time.Duration
+			for _, rd := range reads {
+				if rd.Conn == 0 && rd.At >= time.Duration(c.FaultNS) && rd.In.Err != nil && len(at) < min(c.N, 5) {
+					at = append(at, rd.At)
+				}
+			}
+			for i := 2; i < len(at); i++ {
+				if at[i]-at[i-1] < at[i-1]-at[i-2] {
+					return verifkit.Violf("C10/timeout-backoff-not-increasing", "timed-out receives at %v: the wait before attempt %d is shorter than the one before it\n%s", at, i+1, tl)
+				}
+			}
+			if n := len(at); n >= 4 && at[n-1]-at[n-2] <= at[1]-at[0] {
+				return verifkit.Violf("C10/timeout-backoff-not-increasing", "timed-out receives at %v: the back-off does not grow\n%s", at, tl)
+			}
+		}
 		switch exp {
 		case "none":
 			if len(conns) != 1 {
